@@ -74,7 +74,8 @@ theorem step_client {W : Nat} (hW : 1 ≤ W) {sh : Sh} {t : Tid} {pc : Pc} {op :
   · -- pLinked
     simp only [step] at h
     split at h
-    · simp at h; obtain ⟨rfl, rfl⟩ := h; exact frame_step g0 rfl (L_same l0 rfl rfl rfl (by simp))
+    · simp at h
+      rcases h with ⟨rfl, rfl⟩ | ⟨rfl, rfl⟩ <;> exact frame_step g0 rfl (L_same l0 rfl rfl rfl (by simp))
     · split at h
       · simp at h; obtain ⟨rfl, rfl⟩ := h; exact frame_step g0 rfl (L_same l0 rfl rfl rfl (by simp))
       · simp at h; obtain ⟨rfl, rfl⟩ := h; exact frame_step g0 rfl (L_same l0 rfl rfl rfl (by simp))
